@@ -402,3 +402,28 @@ def run_enumidx(chk, F, rid="R-ENUMIDX"):
                    "%s:%s" % (fn["file"], s.get("l")))
     if n == 0:
         chk.ob(rid, "none", True, "no array is subscripted by an enumeration value")
+
+
+# ---------------------------------------------------------------------------------------------- R-CATCH
+def run_catch(chk, F, rid="R-CATCH"):
+    """C01: a parsing entry point "returns ... or throws a std::exception".  Every throw expression of the library
+    must therefore have a static type derived from std::exception (a thrown `const char*` or int would terminate a
+    client that catches std::exception)."""
+    chk.rule(rid, "every throw expression in the library has a static type derived from std::exception")
+    n = 0
+    for fn in F.functions.values():
+        f = fn.get("file") or ""
+        if "/gen/" in f and not f.endswith((".y", ".l")):
+            continue
+        for t in walk(fn.get("body")):
+            if t.get("k") != "throw" or not t.get("t"):
+                continue            # `throw;` re-raises what was caught
+            n += 1
+            ty = t["t"]
+            bases = t.get("bases", [])
+            ok = ty == "std::exception" or "std::exception" in bases
+            chk.ob(rid, "%s|%s" % (fn["q"].split("::")[-1], ty.split("::")[-1]), ok,
+                   "%s throws a `%s`, which is not derived from std::exception: a client that catches std::exception "
+                   "around a parse call is terminated" % (fn["q"], ty), "%s:%s" % (f, t.get("l")))
+    if n < 20:
+        raise AnalysisBroken("only %d throw expressions found" % n)
